@@ -102,9 +102,9 @@ func c03Directed(c *Ctx) {
 		c.Report("H", "C03 child-start", msg, "")
 		return
 	}
-	w := NewWorld(c, ch, r, true, true, false)
+	w := NewWorld(c, ch, r, true, true, true)
 	n := w.nodes[0]
-	script := []string{"ingest", "ingest", "ingest", "merge", "split", "split", "cleave", "split", "ann", "merge", "split", "child", "ingestm", "split", "merge", "cleave", "ann"}
+	script := []string{"ingest", "ingest", "ingest", "merge", "split", "split", "cleave", "split", "ann", "njfull", "njbare", "merge", "split", "child", "ingestm", "split", "merge", "cleave", "ann", "njbare2", "njnull"}
 	for _, op := range script {
 		switch op {
 		case "ingest":
@@ -119,6 +119,20 @@ func c03Directed(c *Ctx) {
 			w.lmCleave(n)
 		case "ann":
 			w.annPost(n)
+		case "njfull", "njbare", "njbare2", "njnull":
+			// neuron annotations on the master head (the version answered from memory and rebuilt at start-up):
+			// a full one, one that holds nothing but its body id, one emptied again by nulls
+			id, body := "1001", `{"bodyid":1001,"name":"n1","size":3}`
+			switch op {
+			case "njbare":
+				id, body = "1002", `{"bodyid":1002}`
+			case "njbare2":
+				id, body = "1003", `{"bodyid":1003}`
+			case "njnull":
+				id, body = "1001", `{"bodyid":1001,"name":null,"size":null}`
+			}
+			w.must("POST", "node/"+n.uuid+"/nj/key/"+id+"?u=tester", []byte(body))
+			w.log("nj post %s %s at v%d", id, body, n.v)
 		case "child":
 			if cn := w.child(n, false); cn != nil {
 				n = cn
